@@ -16,6 +16,102 @@ ORDER = ["otlp_metrics", "otlp_traces", "otlp_logs"]
 FN = "emit_otlp::client::<OtlpInner as Emitter>::emit"
 
 
+FILE = "emitter/otlp/src/client.rs"
+
+# appended to a second copy of the scratch tree for NATIVE replays only (add-only; reaches the private OtlpInner)
+WRAPPER = r'''
+#[doc(hidden)]
+#[allow(dead_code, missing_docs)]
+pub mod __m2s_dispatch {
+    use super::*;
+    use std::cell::Cell;
+
+    struct QueueLen(Cell<usize>);
+    impl emit::metric::sampler::Sampler for QueueLen {
+        fn metric<P: emit::Props>(&self, metric: emit::metric::Metric<P>) {
+            if metric.name() == "queue_length" {
+                self.0.set(metric.value().by_ref().cast::<usize>().expect("queue_length is a number"));
+            }
+        }
+    }
+
+    fn pending(src: &emit_batcher::ChannelMetrics<Channel>) -> usize {
+        use emit::metric::Source as _;
+        let q = QueueLen(Cell::new(usize::MAX));
+        src.sample_metrics(&q);
+        q.0.get()
+    }
+
+    /// The real `OtlpInner` with the signals of `cfg` configured (1 metrics, 2 traces, 4 logs; every receiver kept alive, no
+    /// worker), one event of `kind` emitted through it:
+    /// 0 plain, 1 metric kind + numeric value, 2 metric kind + text value, 3 span kind + range extent, 4 span kind + point extent,
+    /// 5 metric kind without a value. Returns [items pending for metrics, traces, logs, discard counter].
+    pub fn run(cfg: u8, kind: u8) -> [usize; 4] {
+        use emit::Emitter as _;
+        let (ms, _mr) = emit_batcher::bounded::<Channel>(16);
+        let (ts, _tr) = emit_batcher::bounded::<Channel>(16);
+        let (ls, _lr) = emit_batcher::bounded::<Channel>(16);
+        let (msrc, tsrc, lsrc) = (ms.metric_source(), ts.metric_source(), ls.metric_source());
+        let metrics = Arc::new(InternalMetrics::default());
+        let inner = OtlpInner {
+            otlp_logs: if cfg & 4 != 0 { Some((ClientEventEncoder::new(Encoding::Json, LogsEventEncoder::default()), ls)) } else { None },
+            otlp_traces: if cfg & 2 != 0 { Some((ClientEventEncoder::new(Encoding::Json, TracesEventEncoder::default()), ts)) } else { None },
+            otlp_metrics: if cfg & 1 != 0 { Some((ClientEventEncoder::new(Encoding::Json, MetricsEventEncoder::default()), ms)) } else { None },
+            metrics: metrics.clone(),
+            _handle: thread::spawn(|| {}),
+        };
+        let t0 = emit::Timestamp::from_unix(Duration::from_secs(1)).unwrap();
+        let t1 = emit::Timestamp::from_unix(Duration::from_secs(2)).unwrap();
+        let (k_metric, k_span) = (emit::Kind::Metric, emit::Kind::Span);
+        let mdl = emit::Path::new_raw("m");
+        let tpl = emit::Template::literal("t");
+        match kind {
+            0 => inner.emit(emit::Event::new(mdl, tpl, emit::Extent::point(t1), [("a", emit::Value::from(1))])),
+            1 => inner.emit(emit::Event::new(mdl, tpl, emit::Extent::point(t1), [
+                ("evt_kind", emit::Value::capture_display(&k_metric)), ("metric_name", emit::Value::from("n")),
+                ("metric_agg", emit::Value::from("count")), ("metric_value", emit::Value::from(3))])),
+            2 => inner.emit(emit::Event::new(mdl, tpl, emit::Extent::point(t1), [
+                ("evt_kind", emit::Value::capture_display(&k_metric)), ("metric_name", emit::Value::from("n")),
+                ("metric_agg", emit::Value::from("count")), ("metric_value", emit::Value::from("three"))])),
+            3 => inner.emit(emit::Event::new(mdl, tpl, emit::Extent::range(t0..t1), [
+                ("evt_kind", emit::Value::capture_display(&k_span)), ("span_name", emit::Value::from("s"))])),
+            4 => inner.emit(emit::Event::new(mdl, tpl, emit::Extent::point(t1), [
+                ("evt_kind", emit::Value::capture_display(&k_span)), ("span_name", emit::Value::from("s"))])),
+            _ => inner.emit(emit::Event::new(mdl, tpl, emit::Extent::point(t1), [
+                ("evt_kind", emit::Value::capture_display(&k_metric)), ("metric_name", emit::Value::from("n")),
+                ("metric_agg", emit::Value::from("count")), ("a", emit::Value::from(1))])),
+        }
+        let out = [pending(&msrc), pending(&tsrc), pending(&lsrc), metrics.event_discarded.sample()];
+        std::mem::forget(inner);
+        out
+    }
+}
+'''
+
+DISPATCH_TABLE = r'''use emit_otlp::__m2s_dispatch as v;
+
+fn main() {
+    // C14: an event is exported through exactly one signal - metric samples (metric kind with a numeric value) through metrics, spans (span
+    // kind with a range extent) through traces, everything else (incl. metric / span kinds that do not qualify or whose signal is not
+    // configured) through logs; if no configured signal can take it, it is dropped and the discard counter increases by one.
+    let names = ["plain", "metric sample", "metric kind, text value", "span", "span kind, point extent", "metric kind, no value"];
+    let mut bad = Vec::new();
+    for cfg in 0u8..8 {
+        for kind in 0u8..6 {
+            let got = v::run(cfg, kind);
+            let (m, t, l) = (cfg & 1 != 0, cfg & 2 != 0, cfg & 4 != 0);
+            let want = if kind == 1 && m { [1, 0, 0, 0] } else if kind == 3 && t { [0, 1, 0, 0] } else if l { [0, 0, 1, 0] } else { [0, 0, 0, 1] };
+            if got != want {
+                bad.push(format!("{} with metrics={} traces={} logs={}: [metrics, traces, logs, discarded] = {:?}, expected {:?}", names[kind as usize], m, t, l, got, want));
+            }
+        }
+    }
+    println!("48 (configuration, event) combinations through the real OtlpInner::emit: {} wrong", bad.len());
+    assert!(bad.is_empty(), "{} combination(s) not exported through exactly the right signal; first: {}", bad.len(), bad[0]);
+}
+'''
+
+
 def _or(xs):
     return b_or(*xs) if xs else False
 
@@ -38,7 +134,7 @@ def build(P):
     return cfgabs.Abstraction(P, body, name="OtlpInner_emit")
 
 
-def obligations(P, A):
+def obligations(P, A, native_for=None):
     checks = []
     didx = discard_field_index(P)
     cfg, enc, send = {}, {}, {}
@@ -70,8 +166,21 @@ def obligations(P, A):
     checks.append(("no indirect call in emit", not [e for e in A.effects if e.kind == "call" and e.method == "<indirect>"]))
     rets = A.returns
     checks.append(("emit has a return", len(rets) > 0))
+    fb = None
+    if native_for is not None:
+        # `emit` no longer has the shape the extractor anchors on (one presence test + encode_event + send per signal): the departure
+        # is a CANDIDATE; replayed as a table of all 8 configurations x 6 event kinds through the real OtlpInner
+        def fb(ctx, problems):
+            from .cfg_driver import native_verdict
+            return native_verdict(ctx, "E2_dispatch_exactly_one_first_configured_accepting", native_for(), DISPATCH_TABLE, "emitter/otlp",
+                                  [(FILE, WRAPPER)], default_features=True,
+                                  note="the MIR of <OtlpInner as Emitter>::emit is not the recognised dispatch chain (%s); candidate: some event is "
+                                       "not exported through exactly the right signal; replayed natively: 8 configurations x 6 event kinds "
+                                       "through the real OtlpInner (senders from emit_batcher::bounded, receivers kept alive, no worker)"
+                                       % "; ".join(problems)[:240])
     if not all(ok for _, ok in checks):
-        return [CfgObligation("E2_dispatch_exactly_one_first_configured_accepting", [A], [FN], "", [], [], [], static_checks=checks)]
+        return [CfgObligation("E2_dispatch_exactly_one_first_configured_accepting", [A], [FN], "", [], [], [], static_checks=checks,
+                              fallback=fb)]
     d = disc[0]
     conf = lambda s: i_eq(cfg[s].val[0], 1)
     took = lambda s: b_and(enc[s].guard, i_eq(enc[s].out, 1))          # consulted and accepted
